@@ -96,6 +96,16 @@ func drawLong(n uint32, words []uint32, chunk int) (res uint32, used int, ok boo
 var c01RunLengths = []int{2, 3, 4, 5, 6, 7, 8, 9, 10, 11, 12, 13, 14, 15, 16, 17, 18, 19, 20, 24, 31, 32, 33, 48, 63, 64, 65, 100, 127, 128, 129, 200, 255, 256, 257, 500, 1000, 1024, 4096, 65536, 100000}
 
 func c01Bounds(tier string) []uint32 {
+	if e := os.Getenv("VERIF_C01_BOUNDS"); e != "" { // ad-hoc runs only; the registered commands do not set it
+		var out []uint32
+		for _, f := range strings.Split(e, ",") {
+			v, err := strconv.ParseUint(strings.TrimSpace(f), 10, 32)
+			if err == nil && v > 0 {
+				out = append(out, uint32(v))
+			}
+		}
+		return out
+	}
 	if tier == "quick" {
 		return []uint32{3, 1<<31 + 1, 2}
 	}
@@ -123,8 +133,8 @@ func c01Bounds(tier string) []uint32 {
 // counter width (bits) of the shared histogram for bound n
 func c01Width(n uint32) int {
 	switch {
-	case n <= 1<<22:
-		return 32
+	case n <= 1<<21:
+		return 64 // up to 2^32 words can select one outcome (n = 1)
 	case n <= 1<<26:
 		return 16 // K < 1024
 	case n <= 1<<30:
@@ -136,7 +146,7 @@ func c01Width(n uint32) int {
 
 func c01FileSize(n uint32) int64 {
 	w := int64(c01Width(n))
-	return (int64(n)*w+31)/32*4 + 64
+	return (int64(n)*w+63)/64*8 + 64
 }
 
 func mmapFile(path string, size int64, create bool) ([]byte, error) {
@@ -176,7 +186,14 @@ func satAdd(words []uint32, idx uint64, width uint) {
 	}
 }
 
-func getField(words []uint32, idx uint64, width uint) uint32 {
+func getField(words []uint32, idx uint64, width uint) uint64 {
+	if width == 64 {
+		return uint64(words[2*idx]) | uint64(words[2*idx+1])<<32
+	}
+	return uint64(getField32(words, idx, width))
+}
+
+func getField32(words []uint32, idx uint64, width uint) uint32 {
 	per := 32 / uint64(width)
 	return (words[idx/per] >> (uint(idx%per) * width)) & (uint32(1)<<width - 1)
 }
@@ -238,8 +255,8 @@ func c01Run(c *core.Ctx) {
 		}
 		shared := asWords(mem)
 		var private []uint32
-		if width == 32 {
-			private = make([]uint32, n)
+		if width == 64 {
+			private = make([]uint32, n) // a shard sweeps 2^28 words: fits
 		}
 		var rejected, bad uint64
 		var firstRej, lastRej []uint32
@@ -289,7 +306,7 @@ func c01Run(c *core.Ctx) {
 		if private != nil {
 			for i, v := range private {
 				if v != 0 {
-					atomic.AddUint32(&shared[i], v)
+					atomic.AddUint64((*uint64)(unsafe.Pointer(&shared[2*i])), uint64(v))
 				}
 			}
 		}
@@ -493,7 +510,7 @@ func c01Finish(m *core.Merged) {
 		c0 := getField(words, 0, width)
 		ok := true
 		var badIdx uint64
-		var badVal uint32
+		var badVal uint64
 		for i := uint64(0); i < uint64(n); i++ {
 			if v := getField(words, i, width); v != c0 {
 				ok = false
@@ -502,7 +519,7 @@ func c01Finish(m *core.Merged) {
 			}
 		}
 		syscall.Munmap(mem)
-		accepted := uint64(c0) * uint64(n)
+		accepted := c0 * uint64(n)
 		m.Counters["histogram_cells_compared"] += int64(n)
 		m.Counters["bounds_fully_swept"]++
 		m.Counters["states"] += int64(n) + 1 // outcomes + "rejected"
